@@ -110,6 +110,9 @@ def run_property(prop, tier, seed):
             ops = [json.loads(x) for x in vlib.read_lines(r["path"] + ".died")]
             if "died" in reasons or "panic" in reasons:
                 violations.append(("B-%s-%d-died" % (r["family"], r["seed"]), ops, "crate died (abort, oversized allocation or timeout)"))
+        if any(m[1] == "gen" for m in r["mismatches"]):
+            raise vlib.ToolError("generator produced an input the specification's well-formedness predicate rejects: %s line %d"
+                                 % (r["path"], [m for m in r["mismatches"] if m[1] == "gen"][0][0]))
         bad = [m for m in r["mismatches"] if m[1] in reasons]
         if bad:
             lines = vlib.read_lines(r["path"])
